@@ -89,7 +89,7 @@ CHECKS = {
     "C13": (
         "fault_enumeration",
         "signal handler invoked before every executed source line of selected iterations (sys.settrace line/opcode events), each followed by resume and validation",
-        "For iterations covering the uninformed phase, the first flow iteration with training and population, and ordinary flow iterations (standard sampler) and a complete loop body (importance sampler), plus the initialisation of a fresh standard run and the finalisation of both samplers (entry to finalise until it returns, including the forced final checkpoint write), the handler FlowSampler installed for SIGTERM/SIGINT/SIGALRM is invoked just before every line event of every nessai frame (loops de-duplicated to first/second/last occurrence; opcode events inside consume_sample, insert_live_point and the integrator in thorough). Oracle: SystemExit with the configured code; the checkpoint left behind resumes; no discarded point recorded or integrated twice, none lost, full live set without duplicates, counts of samples / evidence entries / insertion indices agree; the resumed run completes under the C01/C03 monitors and the C05 oracle; for the INS the last iteration-boundary checkpoint is byte-identical.",
+        "For iterations covering the uninformed phase, the first flow iteration with training and population, and ordinary flow iterations (standard sampler) and a complete loop body (importance sampler), plus the initialisation of a fresh run and the finalisation of both samplers (entry to finalise until it returns, including the forced final checkpoint write), the handler FlowSampler installed for SIGTERM/SIGINT/SIGALRM is invoked just before every line event of every nessai frame (loops de-duplicated to first/second/last occurrence; opcode events inside consume_sample, insert_live_point and the integrator in thorough). Oracle: SystemExit with the configured code; the checkpoint left behind resumes; no discarded point recorded or integrated twice, none lost, full live set without duplicates, counts of samples / evidence entries / insertion indices agree; the resumed run completes under the C01/C03 monitors and the C05 oracle; for the INS the last iteration-boundary checkpoint is byte-identical.",
         "Line-level granularity outside the commit functions. Known findings (17+3 call sites in NestedSampler.consume_sample between removal and insertion, 6 in NestedSampler.finalise) are listed in known_findings.json; any other site is reported.",
         "4/C13",
     ),
